@@ -18,7 +18,7 @@ fn one_case(sh: &mut Shard, tape: &[u32], cfg: &GenCfg) -> Result<(), Violation>
     sh.eval();
     sh.journal(&format!("[refsem] {}", r.text));
     let res = match refsem::run(&prog, 100_000) {
-        Outcome::Undetermined(why) => {
+        Outcome::Undetermined(why, _) => {
             sh.discard(&format!("undetermined: {}", why));
             return Ok(());
         }
